@@ -163,6 +163,6 @@ PlanOf(P0) ==
    IN  [ i \in 1..Len(order) |->
           [ looping |-> IsLooping(rs, order[i]),
             dynamic |-> Dynamic(rs, order[i]),
-            rules |-> { [ heads |-> HeadRels(rs[a]),
+            rules |-> { [ id |-> a, heads |-> HeadRels(rs[a]),
                           variants |-> Cardinality(Variants(rs[a], Dynamic(rs, order[i]))) ] : a \in order[i] } ] ]
 ================================================================================
